@@ -619,3 +619,89 @@ Theorem inlines_S_T_hold_on_corpus :
   /\ InlinesTotal3Test.run_all io_default = [].
 Proof. exact InlinesTotal3Test.corpus_all_ok. Qed.
 Print Assumptions inlines_S_T_hold_on_corpus.
+
+(* ==================================================================================================================
+   C01, inline phase, fourth wave (Proofs/InlinesTotal4*.v): invariant (T), totality with the autolink extension ON.
+   ---- 1j. (T) at the colon ----
+   CORRECTION of 1i: inlines_T_statement (TH in EVERY reachable state) is FALSE - url_match does not look at the byte at
+   its position, so in the state behind the autolink of `ftp://a.http //b.c` (next byte SPACE, then slash slash) it
+   answers with rewind 4 while the last sibling is the Link (inlines_T_statement_refuted; the premise of
+   inlines_total_from_T is therefore never met).  What the dispatcher needs is (T) in states whose next byte is the
+   colon (InlinesTotal4Walk.THc; the walk of 1h is repeated with that hypothesis: InlinesTotal4Walk.v).
+   The state invariant (InlinesTotal4Inv.J): when the bytes at pos are [ASCII letters] colon slash slash, the trailing
+   Text siblings spell the letters immediately in front of pos.  PROVED kept by every arm of parse_inline:
+     * the last byte consumed is no ASCII letter (InlinesTotal4Last.v, per arm): line endings and the spaces behind them,
+       code spans and backtick runs (a closer is a backtick run), backslash escapes (punctuation / line end), entities
+       (Entity.unescape matches end in `;`), the pointy-brace forms whose length is a scanner match - autolink_uri,
+       autolink_email, html_tag, html_comment: every match ENDS in `>` (InlinesTotal4Re.re_last: an executable test on
+       the regular expressions re2c was given, lifted by matches_last) -, delimiter runs, smart punctuation, dollar math
+       (closers are dollar runs), wikilinks (`]]`), all paths of handle_close_bracket (`]`, `)`), `[`, `![`, `!`, `:`;
+     * the two autolink arms may end on a letter without a Text: behind the link the bytes are NOT [letters] colon slash
+       (InlinesTotal4Auto.v: ext_loop stops at white space / the end; autolink_delim cuts at `<` and takes away from the
+       end only bytes that are no `/` - punctuation, closing brackets, `&letters;` - the first of them no letter);
+     * the default text arm and the Text `w`: the appended Text holds the consumed bytes (left-trimmed after a hard
+       break), its end column is >= its length (column_offset >= -pos); when all of them are letters, J before.
+     * the three raw-HTML forms of handle_pointy_brace that take `scanner match + k` bytes - CDATA `<![`, declaration
+       `<!X`, processing instruction `<?` - end in `>` when the content is valid UTF-8 without NUL (InlinesTotal4Utf8.v,
+       InlinesTotal4Stop.v): what the scanner matched ends on a character boundary (u0: executable, the UTF-8 validator
+       run over the byte classes of the expression), every valid character outside the terminator bytes is matched by
+       the scanner's character class (cover: executable, derivatives over the bytes the validator accepts), so by
+       maximality of the match the rest starts with the terminator or is too short for handle_pointy_brace to go on.
+       This is where valid UTF-8 enters (witness 1e).
+   CONSEQUENCES:
+     inlines_total             the corrected full statement of 1e (inlines_total_statement, both memo switches): NUL-free, right-trimmed, valid
+                               UTF-8 content, first line not blank, line endings covered by the line-offset table, budget
+                               within its maximum => parse_inlines answers Ok, for EVERY option set (autolink and
+                               relaxed_autolinks included), oracle and reference map: all 76 Panic sites unreachable.
+     inlines_total_no_decl_pi  without any premise on NUL or UTF-8, for contents without the three forms: `no_decl_pi inp`
+                               = behind every `<` there is no `?`, and a `!` only in front of `--` (comments allowed).
+   That the block phase hands over such contents (1g) is still NOT proved here. *)
+From V Require Proofs.InlinesTotal4Walk Proofs.InlinesTotal4Re Proofs.InlinesTotal4Last Proofs.InlinesTotal4Auto
+     Proofs.InlinesTotal4Inv Proofs.InlinesTotal4Utf8 Proofs.InlinesTotal4Stop Proofs.InlinesTotal4Main.
+
+Theorem inlines_T_statement_refuted : ~ inlines_T_statement.
+Proof. exact InlinesTotal4Main.T_statement_refuted. Qed.
+Print Assumptions inlines_T_statement_refuted.
+
+Definition no_decl_pi : bytes -> bool := InlinesTotal4Main.no_decl_pi.
+
+(* inlines_total_statement (1e) is the instance memo = true: Proofs/InlinesTotal4Main.inlines_total *)
+Theorem inlines_total :
+  forall memo o u inp lo sl refmap maxref rs0,
+    has_nul inp = false -> Strings.rtrim_slice inp = inp -> Spec.EscapeSpec.utf8_valid inp = true ->
+    first_line_not_blank inp = true -> line_endings inp < List.length lo -> (rs0 <= maxref)%N ->
+    exists ch rs, parse_inlines memo o u inp lo sl refmap maxref rs0 = Ok (ch, rs).
+Proof. exact InlinesTotal4Main.inlines_total_utf8. Qed.
+Print Assumptions inlines_total.
+
+Theorem inlines_total_no_decl_pi :
+  forall memo o u inp lo sl refmap maxref rs0,
+    Strings.rtrim_slice inp = inp -> first_line_not_blank inp = true ->
+    line_endings inp < List.length lo -> (rs0 <= maxref)%N ->
+    no_decl_pi inp = true ->
+    exists ch rs, parse_inlines memo o u inp lo sl refmap maxref rs0 = Ok (ch, rs).
+Proof. exact InlinesTotal4Main.inlines_total_no_decl_pi. Qed.
+Print Assumptions inlines_total_no_decl_pi.
+
+(* ---- 1k. the inline phase of a whole document (Model/Parse.v inline_phase: run_leaves over the leaves of the block
+   tree, the reference budget threaded from 0; Proofs/InlinesTotal4Leaves.v) ----
+   PROVED: it answers Ok as soon as every leaf the block phase hands over meets, after the right-trim run_inlines_gen
+   does itself, the premises of inlines_total - or is empty (parse_inlines on [] returns at once; the exception is
+   needed: an ATX heading without text has content [] and NO line offsets, InlinesTotal4LeafTest
+   .empty_heading_has_no_line_offsets).  The budget: parse_inlines leaves ref_size <= max_ref_size.
+   NOT PROVED: that parse_blocks establishes the premises.  Known: NUL-free leaves for a NUL-free document
+   (C13_leaf_contents with Q = not NUL).  EVALUATED: all clauses hold on the 36 leaves of 27 documents under all block
+   extensions (InlinesTotal4LeafTest.leaves_ok_on_corpus: headings, stripped reference definitions, tables, tab
+   continuation, quotes, alerts, footnotes, description lists, CR LF / bare CR / no final line end, NUL, non-ASCII). *)
+From V Require Model.Blocks Model.Parse Proofs.InlinesTotal4Leaves Proofs.InlinesTotal4LeafTest.
+
+Theorem inline_phase_total_given_leaves :
+  forall o u root refmap maxref,
+    (forall p i, In (p, i) (Parse.bleaves [] root) ->
+       let c := Strings.rtrim_slice (Blocks.bi_content i) in
+       c = [] \/
+       (has_nul c = false /\ Spec.EscapeSpec.utf8_valid c = true /\ first_line_not_blank c = true
+        /\ line_endings c < List.length (Blocks.bi_lo i))) ->
+    exists t, Parse.inline_phase o u root refmap maxref = Ok t.
+Proof. exact InlinesTotal4Leaves.inline_phase_total. Qed.
+Print Assumptions inline_phase_total_given_leaves.
